@@ -1371,3 +1371,44 @@ func (c *Ctx) r0122(pk *packages.Package) {
 	}
 	c.R.Floor(rule, "trimmed returned comma lists", n, 1)
 }
+
+// R01.24: `a?.b` replaces a conditional only when its other branch is exactly undefined.
+func (c *Ctx) r0124(pk *packages.Package) {
+	const rule = "R01.24"
+	c.R.Rule(rule, "`a?.b` evaluates to undefined when a is null or undefined. js.toNullishExpr rewrites `a==null?X:a.b` to `a?.b`, which is the same value only if X is undefined — for `a==null?null:a.b` the caller would get undefined instead of null. Every assignment `….Optional = true` in toNullishExpr is dominated by the true outcome of a call of js.isUndefined (not of a predicate that also accepts null)")
+	info := pk.TypesInfo
+	fd := c.fn(rule, pk, "toNullishExpr")
+	if fd == nil {
+		return
+	}
+	g := c.graph(pk, fd)
+	n := 0
+	for _, y := range g.Nodes {
+		as, ok := y.Stmt.(*ast.AssignStmt)
+		if !ok || y.Kind != flow.KStmt || len(as.Lhs) != 1 || len(as.Rhs) != 1 {
+			continue
+		}
+		sel, ok := as.Lhs[0].(*ast.SelectorExpr)
+		if !ok || sel.Sel.Name != "Optional" {
+			continue
+		}
+		n++
+		good := false
+		other := ""
+		for _, f := range g.DomFacts(y) {
+			if !f.Value || f.Test.Kind != flow.KCond {
+				continue
+			}
+			if call, isCall := ast.Unparen(f.Test.Expr).(*ast.CallExpr); isCall {
+				cn := calleeName(info, call)
+				if strings.HasSuffix(cn, "/js.isUndefined") {
+					good = true
+				} else if strings.Contains(strings.ToLower(cn), "undefined") || strings.Contains(strings.ToLower(cn), "null") {
+					other = cn[strings.LastIndex(cn, ".")+1:]
+				}
+			}
+		}
+		c.R.Check(good, rule, fmt.Sprintf("js.toNullishExpr/%s=true#%d only when the other branch is undefined", nospace(str(as.Lhs[0])), n), c.pos(as), "behind isUndefined(<other branch>)", "the conditional becomes an optional chain although its other branch is only known through "+other+": `a==null?null:a.b` → `a?.b` yields undefined where the source yields null")
+	}
+	c.R.Floor(rule, "optional links created in toNullishExpr", n, 3)
+}
